@@ -32,7 +32,7 @@ ASSUMPTIONS = [
 FLOORS = {
     'quick': {'keyword_rejections': 2000, 'alternative_after_rejection': 700, 'nonkeyword_same_as_undecorated': 4000,
               'ignorecase_directive': 1500, 'ignorecase_setting': 1500, 'gen_compared': 6000, 'name_events': 9000,
-              'case_variant_rejected': 800, 'in_lookahead': 250, 'in_closure': 1000, 'uppercase_name_rule': 1500, 'reused_after_flip': 6000},
+              'case_variant_rejected': 800, 'in_lookahead': 250, 'in_closure': 1000, 'uppercase_name_rule': 1500, 'reused_after_flip': 6000, 'based_name_rule': 1200},
     'thorough': {'keyword_rejections': 80000, 'nonkeyword_same_as_undecorated': 150000, 'gen_compared': 150000},
 }
 N = {'quick': 1600, 'thorough': 40000}
@@ -87,7 +87,16 @@ def gen_case(rng):
         rules.append(L.Rule(names['other'], L.Pat(r'\d+|' + idpat), decorators=('name',)))
         body = L.Seq((L.Clo(L.Group(L.Choice((C('ident'), C('other'), *kwtok)))), L.EOF()))
         feats.add('in_closure')
-    rules = [L.Rule('start', body), L.Rule(names['ident'], L.Pat(idpat), decorators=('name',))] + rules
+    if rng.random() < 0.25:
+        # the @name rule is a BASED rule (ident < word): it takes the base rule's right hand side, not its decorators, and
+        # keeps its own; the undecorated base rule must go on accepting keywords (it is used for the other alternative)
+        base = 'Word' if upper else 'word'
+        rules = [L.Rule(base, L.Pat(idpat)),
+                 L.Rule(names['ident'], L.NLA(L.Pat('[.(]')), decorators=('name',), base=base)] + rules
+        rules = [L.Rule('start', body)] + rules
+        feats.add('based_name_rule')
+    else:
+        rules = [L.Rule('start', body), L.Rule(names['ident'], L.Pat(idpat), decorators=('name',))] + rules
     if upper:
         feats.add('uppercase_name_rule')
     directives = {}
@@ -115,7 +124,7 @@ def gen_inputs(rng, g, n):
 
 
 def strip_names(g):
-    return L.Grammar([L.Rule(r.name, r.body, tuple(d for d in r.decorators if d not in ('name', 'isname')), r.params, r.kwparams)
+    return L.Grammar([L.Rule(r.name, r.body, tuple(d for d in r.decorators if d not in ('name', 'isname')), r.params, r.kwparams, r.base)
                       for r in g.rules], dict(g.directives), tuple(g.keywords))
 
 
@@ -161,6 +170,8 @@ def check(acc, g, settings, mode, feats, texts, origin):
     reused = [None]
     if 'uppercase_name_rule' in feats:
         acc.count('uppercase_name_rule', len(texts))
+    if 'based_name_rule' in feats:
+        acc.count('based_name_rule', len(texts))
     if mode == 'directive':
         acc.count('ignorecase_directive', len(texts))
     elif mode == 'setting':
